@@ -75,3 +75,81 @@ Example C16_flow_process_response_example : forall (unwrap : unwrap_fn) sign hdr
   exists r, process_response unwrap false None sign hdr
               [5; 0; 2; 3; 16; 0; 0; 0; 28; 0; 0; 0; 1; 0; 0; 0; 4; 0; 0; 0; 0; 0; 0; 0; 1; 2; 3; 4] = Ok r /\ rs_stub_data r = [1; 2; 3; 4].
 Proof. intros. eexists. split; [vm_compute; reflexivity|reflexivity]. Qed.
+
+(* ... for EVERY resp_type (a PDU class := its packet type): Seal.process_pdu_as, the same checks in the same order; this is what
+   _send_pdu hands back during bind() as well (resp_type = BindAck / AlterContextResponse: C15_send_pdu_classification) *)
+Theorem C16_flow_process_response_as : forall wrap (unwrap : unwrap_fn) sch fuel c resp hdr k offs,
+  run (WC wrap unwrap sch) fuel k_flow_process_response [VO (OSelf c); VB resp; VO (OHdr hdr); VI k; offv offs]
+  = (let* q := process_pdu_as k unwrap (is_some (cl_auth c)) offs (cl_sign c) hdr resp in Ok (VO (OPdu q))).
+Proof. exact flow_process_response_as. Qed.
+Print Assumptions C16_flow_process_response_as.
+Theorem C16_process_response_is_as : forall (unwrap : unwrap_fn) auth offs sign hdr resp,
+  process_response unwrap auth offs sign hdr resp
+  = (let* q := process_pdu_as c_PT_RESPONSE unwrap auth offs sign hdr resp in
+     match q with PResponse r => Ok r | _ => Raise ValueError end).
+Proof. exact process_response_is_as. Qed.
+Print Assumptions C16_process_response_is_as.
+
+(* =====================================================================================================
+   The headline clause: THE STUB RETURNED TO THE CALLER IS THE PLAINTEXT THE SECURITY CONTEXT UNSEALED.
+   Shape of the real call (Conversation.receive_response / _send_pdu): hdr is the header decoded from the reply itself, the reply has the
+   frag_len octets the client read, the stub offset is the client's 24 (a RESPONSE without object UUID), and the context's unwrap keeps the
+   body length on success (hypothesis on the abstract unwrap; met by the toy context: C16_toy_context).  Then rs_stub_data r is exactly
+   the octets unwrap returned for (24-octet header, region up to the security trailer, trailer header, signature).  (The declared auth
+   padding is then stripped by _process_get_key_result: C13_reply_strip on this value.)
+   Side condition: the declared lengths leave room for the 24 header octets in front of the security trailer (24 <= frag_len - auth_len - 8);
+   the degenerate accepted reply with 23 (an empty stub) is not covered: PARTIAL.
+   ===================================================================================================== *)
+From V Require Import Model.Toy Proofs.C16Stub.
+Theorem C16_stub_is_unsealed_plaintext : forall (unwrap : unwrap_fn) o1 sign hdr resp r,
+  (forall h b t sg s d, unwrap h b t sg s = Ok d -> len d = len b) ->
+  wfb resp = true ->
+  pdu_header_unpack resp = Ok hdr ->
+  h_frag_len hdr = len resp ->
+  24 <= h_frag_len hdr - (h_auth_len hdr + 8) ->
+  process_response unwrap true (Some (24, o1)) sign hdr resp = Ok r ->
+  let a := unwrap_slices hdr 24 sign resp in
+  exists dec, unwrap (ua_header a) (ua_body a) (ua_trailer a) (ua_signature a) sign = Ok dec /\ rs_stub_data r = dec.
+Proof. exact stub_is_unsealed_plaintext. Qed.
+Print Assumptions C16_stub_is_unsealed_plaintext.
+
+(* IDEAL context (DESIGN: "any alteration of body / signature, and of header / trailer under signing, is rejected"): when unwrap succeeds
+   only on what the peer's context produced for this sequence number (ideal_unwrap sealed_by unwrap; sealed_by h d t s b sg = "the peer's
+   wrap turned plaintext d, with header h and trailer t covered iff s, into sealed body b and signature sg"), a reply whose
+   (header, body, trailer, signature) is NOT such an output for any plaintext is rejected *)
+Theorem C16_altered_rejected_ideal : forall (sealed_by : sealed_rel) (unwrap : unwrap_fn) o0 o1 sign hdr resp,
+  ideal_unwrap sealed_by unwrap ->
+  (let a := unwrap_slices hdr o0 sign resp in
+   forall d, ~ sealed_by (ua_header a) d (ua_trailer a) sign (ua_body a) (ua_signature a)) ->
+  exists e, process_response unwrap true (Some (o0, o1)) sign hdr resp = Raise e.
+Proof. exact altered_rejected_ideal. Qed.
+Print Assumptions C16_altered_rejected_ideal.
+
+(* both hypotheses are met by the toy context of the correspondence checks, for every sequence number *)
+Example C16_toy_context : forall seq,
+  (forall h b t sg s d, toy_unwrap seq h b t sg s = Ok d -> len d = len b) /\
+  ideal_unwrap (fun h d t s b sg => toy_wrap seq (len sg) h d t s = (b, sg)) (toy_unwrap seq).
+Proof. intro seq. split; [exact (toy_unwrap_keeps_length seq)|exact (toy_unwrap_ideal seq)]. Qed.
+
+(* a sealed reply under the toy context (sequence number 3, header signing on): 24 header octets, 16 sealed stub octets, trailer, 16-octet
+   signature; all hypotheses of C16_stub_is_unsealed_plaintext hold and the caller gets the 16 plaintext octets; flipping one bit of the
+   sealed body makes it a reply the context did not produce, and it is refused *)
+Definition ex16_plain : bytes := [1; 2; 3; 4; 5; 6; 7; 8; 9; 10; 11; 12; 13; 14; 15; 16].
+Definition ex16_hdr24 : bytes := [5; 0; 2; 3; 16; 0; 0; 0; 64; 0; 16; 0; 1; 0; 0; 0; 16; 0; 0; 0; 0; 0; 0; 0].
+Definition ex16_trailer : bytes := [10; 6; 0; 0; 0; 0; 0; 0].
+Definition ex16_reply : bytes :=
+  ex16_hdr24 ++ fst (toy_wrap 3 16 ex16_hdr24 ex16_plain ex16_trailer true) ++ ex16_trailer
+  ++ snd (toy_wrap 3 16 ex16_hdr24 ex16_plain ex16_trailer true).
+Example C16_stub_example :
+  exists hdr r, pdu_header_unpack ex16_reply = Ok hdr /\ wfb ex16_reply = true /\ h_frag_len hdr = len ex16_reply /\
+    24 <= h_frag_len hdr - (h_auth_len hdr + 8) /\
+    process_response (toy_unwrap 3) true (Some (24, 40)) true hdr ex16_reply = Ok r /\ rs_stub_data r = ex16_plain /\
+    (exists e, process_response (toy_unwrap 3) true (Some (24, 40)) true hdr
+                 (ex16_hdr24 ++ [Z.lxor 1 (nth 0 (fst (toy_wrap 3 16 ex16_hdr24 ex16_plain ex16_trailer true)) 0)]
+                  ++ tl (fst (toy_wrap 3 16 ex16_hdr24 ex16_plain ex16_trailer true)) ++ ex16_trailer
+                  ++ snd (toy_wrap 3 16 ex16_hdr24 ex16_plain ex16_trailer true)) = Raise e).
+Proof.
+  eexists. eexists. split; [vm_compute; reflexivity|]. split; [vm_compute; reflexivity|]. split; [vm_compute; reflexivity|].
+  split; [vm_compute; discriminate|]. split; [vm_compute; reflexivity|]. split; [reflexivity|].
+  eexists. vm_compute. reflexivity.
+Qed.
